@@ -293,3 +293,23 @@ PROPS["C15"] = dict(
     assumptions=SDL_ASSUME + ["descriptions are compared after ggql's own normalisation (lines trimmed, blank lines dropped), i.e. as stored by the first load"],
     design_ref="DESIGN.md section 5 C15",
 )
+
+PROPS["C16"] = dict(
+    pkg="sdl", test="TestC16", engine="sdl",
+    quick=dict(checks=900, shards=3), thorough=dict(checks=96000, shards=16), timeout=dict(quick=600, thorough=3000),
+    nt_floor=dict(quick=500, thorough=50000),
+    must_classes=["split-into-several-loads", "members-in-extend-blocks", "split+extend", "well-formed-set", "ill-formed-set", "ill-formed-all-rejected", "docs=3", "docs=4"],
+    level="exploration",
+    technique="metamorphic property testing: one generated definition set rendered in five arrangements (plain, permuted, split into 1-4 successive loads, members moved into extend blocks, both); accept/reject, canonical schema description, introspection and fixed requests must agree",
+    rule="A well-formed definition set (or, one case in five, a set with one catalogue violation) is rendered as: the plain document; a"
+         " permutation; a partition into up to 4 successive loads in which every reference, directive and extension target is defined in the"
+         " same or an earlier load; fields, enum values, union members, input fields, interfaces (with the fields they require) and type-level"
+         " directive uses moved into 1-2 extend blocks per type; and both together - such that every interim schema is well-formed (non-empty"
+         " bases, literal members pinned to the base). Oracle: all five agree on accepted/rejected; when accepted the canonical description"
+         " (members sorted, directive-use defaults filled), the full introspection response (lists sorted) and a fixed set of requests are"
+         " identical. Non-trivial = an arrangement with a split or an extend block.",
+    level_text="Metamorphic search; arrangements are sampled, not enumerated (the space of permutations/partitions is factorial).",
+    level_note="Trusted: describe.go; the arrangement generator's notion of a reference-preserving partition.",
+    assumptions=SDL_ASSUME + ["extend blocks are written with an explicit body (the form ggql's grammar supports)"],
+    design_ref="DESIGN.md section 5 C16",
+)
